@@ -2,6 +2,7 @@
 (* Trace validation of the value-level API:                                  *)
 (*   build  C15  Message::new -> byte_len / as_bytes -> add_storage_header   *)
 (*               -> as_bytes -> dlt_message                                  *)
+(*   layout C02  Message::new -> as_bytes = reference encoding                *)
 (*   arg    C15  Argument::len / as_bytes (both orders) / valid              *)
 (*   from_ms, from_us  C17                                                   *)
 (*   real   C18  Argument::to_real_value                                     *)
@@ -21,6 +22,10 @@ BuildOk(e) ==
     /\ Len(r.bytes2) = 16 + Len(r.bytes) /\ SubSeq(r.bytes2, 17, Len(r.bytes2)) = r.bytes
     /\ SubSeq(r.bytes2, 1, 16) = EncStorage(r.m2.sh[1])                  \* 16 bytes carrying the given time and the ECU id
     /\ WellFormed(want0) => (r.parse.v = "msg" /\ r.parse.m = r.m2 /\ r.parse.consumed = Len(r.bytes2))    \* parses back to an equal message
+\* ---- C02 (writer half through the public constructor): the bytes written for Message::new(conf) are the layout of the message
+\* the configuration describes (length field = real length, flags as the payload kind requires)
+LayoutOk(e) == LET want == NewMessage(e.conf, None) IN
+               (ConfFits(e.conf) /\ WellFormed(want)) => (e.res.v = "ok" /\ e.res.bytes = EncMessage(want))
 \* ---- C15: one argument.  e.a; e.res = [v, len, be, le, valid]
 ArgOk(e) ==
   LET a == e.a  r == e.res IN
@@ -40,6 +45,7 @@ RealOk(e) ==
     [] d.v = "some" -> r.v = "some" /\ Num!Eq(r.limbs, d.limbs)
     [] d.v = "some-any" -> r.v = "some"
 Matches(e) == CASE e.op = "build" -> BuildOk(e)
+                [] e.op = "layout" -> LayoutOk(e)
                 [] e.op = "arg" -> ArgOk(e)
                 [] e.op \in {"from_ms", "from_us"} -> TsOk(e)
                 [] e.op = "real" -> RealOk(e)
